@@ -18,6 +18,11 @@ def num(e): return '%s(dec_text(%s as nat))' % (S, e)                      # a n
 def boolarg(e): return '(if %s { seq![0x31u8] } else { seq![0x30u8] })' % e
 def lit(s): return '%s("%s"@)' % (S, s)
 def okstr(e): return 'mpd_protocol::command::arg_ok(%s)' % strarg(e)
+KW = []
+def kw(w):
+    """a literal keyword argument: sent as it is (the oracle says the word; the builder renders it through escape_argument)"""
+    if w not in KW: KW.append(w)
+    return lit(w)
 
 # name of the struct, impl key, (command word, [argument byte specs]), [cmd_ok conjuncts], unit response?, literals used, extra directives
 T = []
@@ -38,6 +43,13 @@ cmd('SetVolume', 'SetVolume', 'setvol', [num('(if self.0 <= 100 { self.0 } else 
 cmd('SetBinaryLimit', 'SetBinaryLimit', 'binarylimit', [num('self.0')])
 cmd('RenamePlaylist', 'RenamePlaylist', 'rename', [strarg('self.from@'), strarg('self.to@')], [okstr('self.from@'), okstr('self.to@')], private=True)
 cmd('MoveInPlaylist', 'MoveInPlaylist', 'playlistmove', [strarg('self.playlist@'), num('self.from'), num('self.to')], [okstr('self.playlist@')], private=True)
+for s_, verb, extra_args, unit_ in (('StickerGet', 'get', ['self.name@'], False), ('StickerSet', 'set', ['self.name@', 'self.value@'], True), ('StickerDelete', 'delete', ['self.name@'], True), ('StickerList', 'list', [], False)):
+    cmd(s_, s_, 'sticker', [kw(verb), kw('song'), strarg('self.uri@')] + [strarg(a) for a in extra_args], [okstr('self.uri@')] + [okstr(a) for a in extra_args], unit=unit_, private=True)
+cmd('SendChannelMessage', 'SendChannelMessage', 'sendmessage', [strarg('self.channel@'), strarg('self.message@')], [okstr('self.channel@'), okstr('self.message@')], private=True)
+cmd('ReadChannelMessages', 'ReadChannelMessages', 'readmessages', unit=False)
+cmd('ListChannels', 'ListChannels', 'channels', unit=False)
+cmd('SetSingle', 'SetSingle', 'single', spec='(match self.0 { SingleMode::Disabled => %s, SingleMode::Enabled => %s, SingleMode::Oneshot => %s })' % tuple('%s.push(0x20u8) + %s' % (lit('single'), kw(w)) for w in ('0', '1', 'oneshot')))
+cmd('SetReplayGainMode', 'SetReplayGainMode', 'replay_gain_mode', spec='(match self.0 { ReplayGainMode::Off => %s, ReplayGainMode::Track => %s, ReplayGainMode::Album => %s, ReplayGainMode::Auto => %s })' % tuple('%s.push(0x20u8) + %s' % (lit('replay_gain_mode'), kw(w)) for w in ('off', 'track', 'album', 'auto')))
 cmd('AlbumArt', 'AlbumArt', 'albumart', [strarg('self.uri@'), num('self.offset')], [okstr('self.uri@')], unit=False, private=True)
 cmd('AlbumArtEmbedded', 'AlbumArtEmbedded', 'readpicture', [strarg('self.uri@'), num('self.offset')], [okstr('self.uri@')], unit=False, private=True)
 
@@ -55,6 +67,18 @@ def name_lemma(words):
             body.append('    assert("%s"@.subrange(0, 12)[%d] == "%s"@[%d]); assert("command_list"@[%d] != "%s"@[%d]);' % (w, k, w, k, k, w, k))
         body.append('    assert(mpd_protocol::command::valid_name("%s"@));' % w)
     return 'pub proof fn lemma_command_words()\n    ensures\n        %s,\n{\n%s\n}\n' % (',\n        '.join(ens), '\n'.join(body))
+
+
+def kw_lemma(words):
+    """every literal keyword argument is a plain word: escape_argument sends it as it is, and it can be written (no LF / NUL)"""
+    body = []; ens = []
+    for w in words:
+        ens.append('vx_spec::tok::render("%s"@) == "%s"@ && mpd_protocol::command::arg_ok(vx_spec::tok::sbytes("%s"@))' % (w, w, w))
+        body.append('    reveal_strlit("%s"); assert("%s"@.len() == %d);' % (w, w, len(w)))
+        body.append('    ' + ' '.join('assert(("%s"@[%d] as u32) > 0x20 && ("%s"@[%d] as u32) < 128 && !vx_spec::tok::special("%s"@[%d]));' % (w, i, w, i, w, i) for i in range(len(w))))
+        body.append('    assert(!vx_spec::tok::needs_quotes("%s"@)); vx_spec::tok::lemma_esc_plain("%s"@); assert(vstd::utf8::is_ascii_chars("%s"@)); vstd::utf8::is_ascii_chars_encode_utf8("%s"@);' % (w, w, w, w))
+        body.append('    assert(mpd_protocol::command::arg_ok(vx_spec::tok::sbytes("%s"@)));' % w)
+    return 'pub proof fn lemma_keywords()\n    ensures\n        %s,\n{\n%s\n}\n' % (',\n        '.join(ens), '\n'.join(body))
 
 
 def main():
@@ -84,12 +108,12 @@ def main():
         out.append('lift fn "<%s as Command>::command"' % k)
         out.append('  props C15\n  implicit C12')
         if c['extra']: out.append(c['extra'].rstrip('\n'))
-        out.append('  prologue <<<\n        proof { lemma_command_words(); }\n        broadcast use dec_text_digits, lemma_num_arg_ok;\n  >>>')
+        out.append('  prologue <<<\n        proof { lemma_command_words(); lemma_keywords(); }\n        broadcast use dec_text_digits, lemma_num_arg_ok;\n  >>>')
         if not c['unit']:
             out.append('lift fn "<%s as Command>::response"' % k)
             out.append('  props\n  implicit\n  attr <<<\n    #[verifier::external_body]\n  >>>')
         out.append('')
-    out.append('append <<<\n' + name_lemma(words) + '''/// a number written as decimal digits can always be written as an argument (no LF / NUL)
+    out.append('append <<<\n' + name_lemma(words) + kw_lemma(KW) + '''/// a number written as decimal digits can always be written as an argument (no LF / NUL)
 pub broadcast proof fn lemma_num_arg_ok(n: nat)
     ensures #[trigger] mpd_protocol::command::arg_ok(vx_spec::tok::sbytes(dec_text(n)))
 {
